@@ -67,6 +67,7 @@ uint64_t change_points[8]; int nchange = 0;
 std::atomic<long long> voff_ns{0};
 long long real_now_ns(clockid_t c) { struct timespec ts; if (!r_cgt || r_cgt(c, &ts)) return 0; return (long long)ts.tv_sec * 1000000000LL + ts.tv_nsec; }
 void expire(Th * t) { long long need = t->deadline_ns - (real_now_ns(t->clk) + voff_ns.load()) + 1000000; if (need > 0) voff_ns.fetch_add(need); }
+int (*chooser)(int ncand, const int * cand_ids, int current_id, int current_enabled) = nullptr;   // systematic exploration: the harness decides
 const size_t LOGMAX = 1 << 20;
 uint8_t * slog = nullptr; size_t nlog = 0;
 const uint8_t * replay_seq = nullptr; size_t replay_n = 0, replay_i = 0;
@@ -175,10 +176,10 @@ void schedule() {
     if (me->st == WAIT_COND) { const char * s = site_of(me->bt, me->nbt); snprintf(me->site, sizeof me->site, "%s", s); }
     if (budget && steps > budget) { budget = 0; report("livelock"); }
     // optional spurious wake-up of one condition waiter
-    if (spurious && (int)(rnd() % 1000) < spurious)
+    if (!chooser && spurious && (int)(rnd() % 1000) < spurious)
         for (int i = 0; i < nT; i++) if (T[i]->st == WAIT_COND && T[i] != me) { T[i]->st = WANT_MUTEX; T[i]->obj = T[i]->obj2; break; }
     // virtual time: a timed wait may time out at any scheduling point
-    if (timeouts && (int)(rnd() % 1000) < timeouts)
+    if (!chooser && timeouts && (int)(rnd() % 1000) < timeouts)
         for (int i = 0; i < nT; i++) if (T[i]->st == WAIT_COND && T[i]->timed && T[i] != me) { T[i]->st = WANT_MUTEX; T[i]->obj = T[i]->obj2; T[i]->timedout = true; expire(T[i]); break; }
     Th * cand[MAXT]; int nc = 0; bool allfin = true;
     for (int i = 0; i < nT; i++) { if (T[i]->st != FINISHED) allfin = false; if (enabled(T[i])) cand[nc++] = T[i]; }
@@ -196,7 +197,12 @@ void schedule() {
         if (nf > 0 && nf < nc) { for (int i = 0; i < nf; i++) cand[i] = free_[i]; nc = nf; }
     }
     Th * next = nullptr;
-    if (replay_seq && replay_i < replay_n) {
+    if (chooser) {
+        int ids[MAXT]; bool cur_en = false; for (int i = 0; i < nc; i++) { ids[i] = cand[i]->id; if (cand[i] == me) cur_en = true; }
+        int want = chooser(nc, ids, me->id, cur_en ? 1 : 0);
+        for (int i = 0; i < nc; i++) if (cand[i]->id == want) next = cand[i];
+        if (!next) { fprintf(stderr, "HARNESS: chooser picked thread %d which is not enabled\n", want); _exit(2); }
+    } else if (replay_seq && replay_i < replay_n) {
         int want = replay_seq[replay_i++];
         for (int i = 0; i < nc; i++) if (cand[i]->id == want) next = cand[i];
         if (!next) { fprintf(stderr, "HARNESS: replay diverged at choice %zu (thread %d not enabled)\n", replay_i - 1, want); _exit(2); }
@@ -277,6 +283,7 @@ int sched_end(void) {
 }
 void sched_set_budget(uint64_t s) { budget = s; }
 void sched_set_spurious(int pm) { spurious = pm; }
+void sched_set_chooser(int (*fn)(int, const int *, int, int)) { chooser = fn; }
 void sched_set_timeouts(int pm) { timeouts = pm; }
 void sched_replay(const uint8_t * seq, size_t n) { replay_seq = seq; replay_n = n; replay_i = 0; }
 const uint8_t * sched_log(size_t * n) { *n = nlog; return slog; }
@@ -310,7 +317,7 @@ static int do_wait(pthread_cond_t * c, pthread_mutex_t * m, bool timed, clockid_
     // pre-wait window: the predicate has been evaluated, the mutex is still held, the thread is not yet in the wait set.
     // Threads that need this mutex stay blocked; a notifier that does not take it can run here - and its wake-up is lost,
     // exactly as on real hardware.
-    r_lock(&G); self->st = RUNNABLE; if (rnd() % 2) self->hold = 4 + (int)(rnd() % 16); schedule();
+    r_lock(&G); self->st = RUNNABLE; if (!chooser && rnd() % 2) self->hold = 4 + (int)(rnd() % 16); schedule();
     r_lock(&G); self->hold = 0; owner_of(m) = -1; self->st = WAIT_COND; self->obj = c; self->obj2 = m; self->timed = timed; self->timedout = false;
     {   // count the blocked-at-site event
         void * bt[32]; int n = backtrace(bt, 32); count_site(site_of(bt, n));
@@ -336,7 +343,7 @@ static void wake(pthread_cond_t * c, bool all) {
     for (int i = 0; i < nT; i++) if (T[i]->st == WAIT_COND && T[i]->obj == c) idx[n++] = i;
     if (!n) return;
     if (all) { for (int k = 0; k < n; k++) { Th * t = T[idx[k]]; t->st = WANT_MUTEX; t->obj = t->obj2; } }
-    else { Th * t = T[idx[rnd() % n]]; t->st = WANT_MUTEX; t->obj = t->obj2; }
+    else { Th * t = T[idx[chooser ? 0 : rnd() % n]]; t->st = WANT_MUTEX; t->obj = t->obj2; }
 }
 int pthread_cond_broadcast(pthread_cond_t * c) {
     if (!controlled()) { if (!resolved.load(std::memory_order_acquire)) resolve(); int rc = r_bcast(c); jitter(); return rc; }
